@@ -46,6 +46,7 @@ def plan(tier, seed):
                     jobs.append({"k": "enum", "mode": mode, "bare": bare, "len": (L, L), "first": first})
     for i in range(16 if tier == "quick" else 400):
         jobs.append({"k": "rand", "i": i, "seed": seed})
+    jobs.append({"k": "nested", "seed": seed})
     return jobs
 
 
@@ -65,6 +66,9 @@ def _sets(b, exp):
     a = dict(b.attrs)
     return {"config": ["regex" if a.get("keep-unique") else ("bare" if a.get("keep-unique") is None else "empty")],
             "verdict": ["duplicate" if exp else "unique"]}
+
+
+ATTRS_NESTED = [[("keep-unique", None)], [("keep-unique", "name=\\\"(?P<value>[a-z]+)")]]
 
 
 def run_job(job, ctx):
@@ -104,6 +108,19 @@ def run_job(job, ctx):
                 if len(blocks) >= 2500:
                     flush()
         flush()
+    elif job["k"] == "nested":
+        # nested blocks: the inner blocks' tag lines are ordinary lines (keys) of the outer block, and each inner block is
+        # judged on its own content
+        import itertools as _it
+        blocks = []
+        k = 0
+        for attrs in ATTRS_NESTED:
+            for pre, inner, post in _it.product([[], ["a"], ["z"], ["b", "a"]], [["m"], ["a", "a"], []], [[], ["a"], ["zz"]]):
+                lines = list(pre) + ['# <block name="in' + str(k) + '">'] + list(inner) + ["# </block>"] + list(post)
+                k += 1
+                blocks.append(vbatch.BBlock(list(attrs), lines))
+        for c in vbatch.run_batch(ctx, blocks, "hash", "keep-unique", model, sig_prefix="C07", prefix="outer", nontrivial_fn=_nontrivial, sets_fn=_sets):
+            acc.add(c)
     else:
         r = rng("c07", job["seed"], job["i"])
         blocks = [_random_block(r) for _ in range(40)]
